@@ -96,6 +96,13 @@ const FAMILIES: &[Family] = &[
         feature: "typename_only_concrete",
         failure: &["Err(", "compile"],
     },
+    Family {
+        key: "double-variant-selection",
+        what: "two selections for the same variant type under one abstract parent (two inline fragments, or a spread plus an inline fragment): only the first selection's sub-selection is rendered",
+        enable: |c| c.gen.fam_double_variant = true,
+        feature: "double_variant",
+        failure: &["re-serialised value differs", "missing field", "Err("],
+    },
 ];
 
 fn classify(f: &Failure) -> Option<String> {
